@@ -111,6 +111,48 @@ theorem pyMapM_congr {α β : Type} {f : α → M β} (g : α → M β) (h : ∀
   have : f = g := funext h
   rw [this]
 
+/-! ### association lists with distinct keys, Python set operations -/
+theorem mem_iff_alGet {α β : Type} [DecidableEq α] : ∀ (l : List (α × β)), (alKeys l).Nodup → ∀ (a : α) (b : β),
+    (a, b) ∈ l ↔ alGet l a = some b
+  | [], _, a, b => by simp
+  | (k, v) :: t, h, a, b => by
+    simp only [alKeys, List.map_cons, List.nodup_cons] at h
+    have ih := mem_iff_alGet t h.2 a b
+    simp only [List.mem_cons, Prod.mk.injEq, alGet_cons]
+    by_cases hk : k = a
+    · subst hk
+      simp only [if_true, Option.some.injEq]
+      constructor
+      · rintro (hv | hm)
+        · exact hv.2.symm
+        · exact absurd (List.mem_map_of_mem (f := Prod.fst) hm) h.1
+      · rintro rfl; exact Or.inl ⟨trivial, rfl⟩
+    · simp only [hk, if_false, ← ih]
+      constructor
+      · rintro (⟨rfl, _⟩ | hm)
+        · exact absurd rfl hk
+        · exact hm
+      · exact Or.inr
+
+theorem mem_foldl_setAdd {α : Type} [DecidableEq α] (x : α) : ∀ (l acc : List α),
+    x ∈ l.foldl setAdd acc ↔ x ∈ acc ∨ x ∈ l
+  | [], acc => by simp
+  | a :: l, acc => by
+    simp only [List.foldl_cons, mem_foldl_setAdd x l, mem_setAdd, List.mem_cons]
+    tauto
+
+theorem mem_pyUnion_aux {α : Type} [DecidableEq α] (x : α) : ∀ (ls : List (List α)) (acc : List α),
+    x ∈ ls.foldl (fun acc l => l.foldl setAdd acc) acc ↔ x ∈ acc ∨ ∃ l ∈ ls, x ∈ l
+  | [], acc => by simp
+  | l :: ls, acc => by
+    simp only [List.foldl_cons, mem_pyUnion_aux x ls, mem_foldl_setAdd, List.mem_cons, exists_eq_or_imp]
+    tauto
+
+theorem mem_pyUnion {α : Type} [DecidableEq α] (x : α) (ls : List (List α)) :
+    x ∈ pyUnion ls ↔ ∃ l ∈ ls, x ∈ l := by
+  simp [pyUnion, mem_pyUnion_aux]
+
+
 /-- what a translated method and its model agree on in every case: the outcome, the raw tree and the
 uuid counter; and the whole state whenever the model does not raise. (They may differ in the caches
 left behind when a loop over a cache raises half-way: Python has updated the entries visited so far,
